@@ -6,6 +6,7 @@ import (
 	"bytes"
 	"context"
 	"fmt"
+	"io"
 	"os"
 	"sort"
 	"strings"
@@ -41,6 +42,7 @@ type RefRecvRes struct {
 	Parked   []string
 	Progress string
 	Overlaps []string
+	FaultHit bool // the injected read error was returned to the sender
 }
 
 // statEq compares an announced stat with the independently listed view.
@@ -129,7 +131,23 @@ func refRecvBody(sc Scn, src, view fsmodel.Tree, srcDir string, res *RefRecvRes)
 				}
 			}()
 		}
-		var srcFS fsutil.FS = memfs.New(src)
+		mfs := memfs.New(src)
+		if sc.Fault.Kind == "read" {
+			// reading the K-th regular file of the source fails after J bytes
+			files := []string{}
+			for _, n := range src {
+				if n.Kind == fsmodel.File {
+					files = append(files, n.Path)
+				}
+			}
+			mfs.OpenHook = func(p string, rc io.ReadCloser) (io.ReadCloser, error) {
+				if sc.Fault.K < len(files) && files[sc.Fault.K] == p {
+					return readCloser{&faultReader{r: rc, after: sc.Fault.J, hit: &res.FaultHit}, rc}, nil
+				}
+				return rc, nil
+			}
+		}
+		var srcFS fsutil.FS = mfs
 		if sc.DiskSrc {
 			dfs, err := fsutil.NewFS(srcDir)
 			if err != nil {
@@ -391,6 +409,12 @@ func runC06Job(t *testing.T, j *Job, r *evid.Run) *JobRes {
 			}
 		case res.Early || res.BadID:
 			// a request may overtake its announcement: either rejected or served
+		case res.FaultHit:
+			// a source read failed: whatever was sent for that id is a prefix without terminator (the monitor
+			// checks the terminator), and the call must not report success
+			if res.SendErr == "" {
+				v = append(v, Viol{"read-error-swallowed", fmt.Sprintf("reading a requested file failed (%s) but Send returned nil", sc)})
+			}
 		default:
 			if res.SendErr != "" {
 				v = append(v, Viol{"conforming-receiver-failed", fmt.Sprintf("Send failed against a conforming receiver (script %v): %s", sc.Script, res.SendErr)})
@@ -523,6 +547,29 @@ func driveC06(p *Pool, r *evid.Run) {
 	exploreAll(p, r, "C06", v2, 1, 0)
 	r.Add("scenarios", int64(len(v2)))
 
+	// read faults: reading file K fails after J bytes, every file of V2 requested
+	var rf []Scn
+	for k, sz := range []int{0, 1, 32768, 32769, 65537} {
+		for _, jb := range []int{0, 1, 32768, sz - 1, sz} {
+			if jb < 0 || jb > sz {
+				continue
+			}
+			for _, o := range [][]int{{0, 1, 2, 3, 4}, {4, 3, 2, 1, 0}} {
+				for _, pol := range []string{"run", "recv"} {
+					for _, cp := range caps {
+						rf = append(rf, Scn{Kind: "refrecv", Src: "v2", Cap: cp, Policy: pol, Script: o, SelectAlts: true, Fault: Fault{Kind: "read", K: k, J: jb}})
+					}
+				}
+			}
+		}
+	}
+	rfb := 0
+	if !quick {
+		rfb = 1
+	}
+	exploreAll(p, r, "C06", dedupScn(rf), rfb, 0)
+	r.Add("scenarios", int64(len(rf)))
+
 	// V3: burst of 140 requests (more than pipeline + workers)
 	var v3 []Scn
 	all := make([]int, 140)
@@ -544,4 +591,16 @@ func driveC06(p *Pool, r *evid.Run) {
 	exploreAll(p, r, "C06", v3, vb, 0)
 	r.Add("scenarios", int64(len(v3)))
 	r.Set("completed_bound", map[string]int{"v1": bound, "v2": 1, "v3_burst140": vb})
+}
+
+func dedupScn(in []Scn) []Scn {
+	seen := map[string]bool{}
+	var out []Scn
+	for _, sc := range in {
+		if k := sc.String(); !seen[k] {
+			seen[k] = true
+			out = append(out, sc)
+		}
+	}
+	return out
 }
